@@ -428,6 +428,8 @@ fn run_transport(
                                 *dentry = Some(desc);
                             }
                             Event::Metric(key, value) => {
+                                #[cfg(metrics_verif)]
+                                verif::recv_metric(&key, &value);
                                 match convert_metric_to_protobuf_encoded(key, value) {
                                     Ok(pmsg) => buffered_pmsgs.push_back(pmsg),
                                     Err(e) => error!(error = ?e, "error encoding metric"),
@@ -720,6 +722,7 @@ pub mod verif {
         Accept { token: usize, peer_port: u16, meta_order: Vec<String> },
         WakeBegin,
         RecvMeta { name: String, mtype: i32, unit: Option<String>, desc: String },
+        RecvMetric { name: String, labels: Vec<(String, String)>, op: u8, value: u64 },
         Batch { frames: Vec<Vec<u8>> },
         Fanout { token: usize },
         Enqueue { token: usize, dropped: usize },
@@ -809,6 +812,22 @@ pub mod verif {
             i.received += 1;
             i.log.push(ev);
         });
+    }
+
+    /// The inputs of `convert_metric_to_protobuf_encoded`: key name, labels in the key's order,
+    /// the protobuf field number of the operation and its value (`f64` as bit pattern).
+    pub(crate) fn recv_metric(key: &metrics::Key, op: &super::MetricOperation) {
+        use super::MetricOperation as M;
+        let (op, value) = match op {
+            M::IncrementCounter(v) => (4, *v),
+            M::SetCounter(v) => (5, *v),
+            M::IncrementGauge(v) => (6, v.to_bits()),
+            M::DecrementGauge(v) => (7, v.to_bits()),
+            M::SetGauge(v) => (8, v.to_bits()),
+            M::RecordHistogram(v) => (9, v.to_bits()),
+        };
+        let labels = key.labels().map(|l| (l.key().to_string(), l.value().to_string())).collect();
+        log(Ev::RecvMetric { name: key.name().to_string(), labels, op, value });
     }
 
     pub fn batch(frames: &VecDeque<bytes::Bytes>) {
